@@ -34,18 +34,18 @@ def gen(rng, flavor):
         if flavor == 'c08':
             kind = rng.choice(['put', 'put', 'map', 'mapiter'])
         else:
-            kind = rng.choice(['put', 'put', 'await', 'amap', 'map', 'mapiter'])
+            kind = rng.choice(['put', 'put', 'await', 'amap', 'map', 'mapiter', 'mapre'])
         if kind == 'put':
             p = [(0, item)]
             item += 1
         elif kind == 'await':
             p = [(rng.choice([0, 16, T // 2, T + 32]), rng.choice([item, item, 'F']))]
             item += 1
-        elif kind in ('map', 'mapiter'):
+        elif kind in ('map', 'mapiter', 'mapre'):
             k = rng.randint(0, 3)
             p = [(0, item + j) for j in range(k)]
             item += k
-            if kind == 'mapiter' and rng.random() < 0.3 and flavor != 'c08':
+            if kind in ('mapiter', 'mapre') and rng.random() < (0.3 if kind == 'mapiter' else 0.6) and flavor != 'c08':
                 p.append((0, 'F'))
         else:
             k = rng.randint(0, 3)
@@ -142,6 +142,13 @@ def run_real(T, prog, outcomes, shutdown_at=None, make_buffer=None):
                 if x == 'F':
                     raise ValueError('p')
                 yield x
+
+        class ReIterable:
+            def __init__(self, p):
+                self.p = p
+
+            def __iter__(self):
+                return it(self.p)
         tasks = []
 
         async def waiter(i, c):
@@ -157,6 +164,8 @@ def run_real(T, prog, outcomes, shutdown_at=None, make_buffer=None):
                 buf.amap(agen(p))
             elif kind == 'map':
                 buf.map([x for _, x in p])
+            elif kind == 'mapre':
+                buf.map(ReIterable(p))      # an iterable that is not an iterator and may fail part-way
             else:
                 buf.map(it(p))
 
